@@ -21,6 +21,7 @@ ASSUMPTIONS = [
 
 GRID = 0.25
 STARTS = [0.0, 0.3, 0.999]
+_STALLED = False      # job variant: the peer stops reading (written octets stay in the write buffer)
 
 
 def main(ctx):
@@ -45,6 +46,12 @@ def main(ctx):
                         for restart in (True, False):
                             jobs.append({"sc": "ping", "role": role, "start": start, "I": I, "T": T,
                                          "restart": restart, "npings": 3 if tier == "thorough" else 2})
+        # the silent peer has also stopped reading (unsent octets in the write buffer): only an
+        # abort gets rid of such a connection
+        for j in list(jobs):
+            if j["sc"] in ("open", "close") or (j["sc"] == "ping" and j["T"]):
+                if j["start"] == 0.0:
+                    jobs.append(dict(j, stalled=True))
         ctx.pmap({"fw": fw, "nvx": "1"}, "props.c17:job", jobs)
     ctx.coverage["states"] = int(ctx.counters["configs"])
     ctx.coverage["transitions"] = int(ctx.counters["evaluations"])
@@ -53,7 +60,8 @@ def main(ctx):
     for n in ("open:silent_dropped", "open:responsive_ok", "close:silent_dropped",
               "close:responsive_ok", "drop:silent_dropped", "drop:responsive_ok",
               "ping:silent_dropped", "ping:responsive_ok", "ping:data_counts",
-              "ping:data_does_not_count", "after_closed_checked", "pings_seen", "disabled_ok"):
+              "ping:data_does_not_count", "after_closed_checked", "pings_seen", "disabled_ok",
+              "stalled_peer_jobs", "ping:fragment_as_traffic"):
         ctx.require(n)
 
 
@@ -62,6 +70,7 @@ class Run:
     """real endpoint + time line bookkeeping"""
 
     def __init__(self, role, opts, start):
+        self.stalled = _STALLED
         from harness import ws
         from ref import ws_frames as F
         self.F = F
@@ -77,6 +86,10 @@ class Run:
         self.hs_len = None
         self.pings = []      # (time, payload)
         self.timeline = []
+        if self.stalled and role == "client":
+            # the peer never reads: not even the client's opening request leaves the buffer
+            self.t.stalled = True
+            self.t.unsent += len(self.t.written)
 
     def now(self):
         return round(self.conn.now() - self.t0, 6)
@@ -90,6 +103,9 @@ class Run:
             ep.feed(ep.client_response(bytes(self.t.written)))
         self.hs_len = len(self.t.written)
         self.parsed = self.hs_len
+        if self.stalled:
+            # from now on the peer does not read any more
+            self.t.stalled = True
 
     def scan_wire(self):
         """pick up frames written since the last scan"""
@@ -129,9 +145,9 @@ class Run:
         if self.drop_time is None and (self.t.calls or self.conn.lost):
             self.drop_time = self.now()
 
-    def feed_frame(self, op, payload=b""):
+    def feed_frame(self, op, payload=b"", fin=True):
         if not self.conn.lost and self.t.reading():
-            self.ep.feed(self.F.encode(op, payload, mask=self.mask))
+            self.ep.feed(self.F.encode(op, payload, fin=fin, mask=self.mask))
             self.scan_wire()
             if self.drop_time is None and (self.t.calls or self.conn.lost):
                 self.drop_time = self.now()
@@ -207,9 +223,13 @@ def job(a):
 
     role, start = a["role"], a["start"]
     sc = a["sc"]
+    global _STALLED
+    _STALLED = stalled = bool(a.get("stalled"))
+    if stalled:
+        count("stalled_peer_jobs")
     if sc == "open":
         D = a["D"]
-        for react in frange(0, D + 1.0) + [None]:
+        for react in ([None] if stalled else frange(0, D + 1.0) + [None]):
             r = Run(role, {"openHandshakeTimeout": D, "closeHandshakeTimeout": 1}, start)
             evals[0] += 1
             acts = {} if react is None else {react: r.handshake}
@@ -247,7 +267,7 @@ def job(a):
         if role == "client":
             opts["serverConnectionDropTimeout"] = sdt
         for t1 in (0.0, 0.5):
-            for reply in frange(0, cht + 0.75) + [None]:
+            for reply in ([None] if stalled else frange(0, cht + 0.75) + [None]):
                 drops = [None] if role == "server" or reply is None or reply > cht else \
                     frange(0, sdt + 0.75) + [None]
                 for tdrop in drops:
@@ -388,8 +408,11 @@ def job(a):
             delays = sorted(set([0.0, 0.25, max(0.0, T - 1.0), T + 0.25])) + [None]
         else:
             delays = [0.0, 1.0, None]
-        kinds = ["pong", "data", "data+pong"]
+        # "frag": the peer is streaming one long message: a non-final fragment is the only traffic
+        kinds = ["pong", "data", "data+pong", "frag"]
         choices = [(d, k) for d in delays for k in (kinds if d is not None else ["-"])]
+        if stalled:
+            choices = [(None, "-")]
         for plan in itertools.product(choices, repeat=npings):
             # a plan is only meaningful up to the first reaction that is expected to fail
             r = Run(role, opts, start)
@@ -405,6 +428,7 @@ def job(a):
             last_ping_seen = 0
             pong_times = []
             steps = 0
+            frag_open = False
             while r.now() < horizon and not dead:
                 r.tick()
                 steps += 1
@@ -441,9 +465,20 @@ def job(a):
                         r.feed_frame(10, payload)
                     elif k == "data+pong":
                         # a data frame while the ping is outstanding, then the (late but timely) pong
+                        if frag_open:
+                            r.feed_frame(0, b"end")
+                            frag_open = False
                         r.feed_frame(2, b"data")
                         r.feed_frame(10, payload)
+                    elif k == "frag":
+                        r.feed_frame(0 if frag_open else 2, b"part", fin=False)
+                        frag_open = True
+                        count("ping:fragment_as_traffic")
                     else:
+                        if frag_open:
+                            # finish the streamed message first (its final frame is data as well)
+                            r.feed_frame(0, b"end")
+                            frag_open = False
                         r.feed_frame(2, b"data")
                     if expected_drop is not None:
                         pass
@@ -454,7 +489,7 @@ def job(a):
                     elif counts:
                         pong_times.append((pt, r.now(), k))
                         expected_drop = None
-                        if k == "data":
+                        if k in ("data", "frag"):
                             count("ping:data_counts")
                 if r.drop_time is not None:
                     dead = True
